@@ -408,3 +408,8 @@ class WrapPart:
 
 
 PARTS = [MergePart, SubsetPart, WrapPart]
+
+# image level (integrator): the image-level correspondence parts snapshot every input image (data bytes, affine) and
+# input extension before/after NiftiWrapper.from_sequence / split; their 'C13:' oracle messages report a modified input
+from props import imglib
+PARTS = list(PARTS) + [imglib.for_property(p, 'C13') for p in (imglib.ImgMergePart, imglib.ImgSplitPart)]
